@@ -500,7 +500,7 @@ R.mutant("generate-shares-dict", "sql/base.py", sub("            s.__dict__ = se
 R.mutant("decorator-runs-on-original", "sql/base.py", sub("        self = self._generate()\n        x = fn(self, *args, **kw)\n        assert x is self, \"generative methods must return self\"\n        return self",
                                                           "        copy = self._generate()\n        x = fn(self, *args, **kw)\n        return x"), "C03-R2")
 R.mutant("contains-no-clone", "sql/compiler.py", sub("    def visit_contains_op_binary(self, binary, operator, **kw):\n        binary = binary._clone()\n", "    def visit_contains_op_binary(self, binary, operator, **kw):\n"), "C03-R3")
-R.mutant("not-ilike-no-clone", "sql/compiler.py", sub("XX), "C03-R3")
+R.mutant("not-ilike-no-clone", "sql/compiler.py", sub("        if operator is operators.not_ilike_op:\n            binary = binary._clone()\n", "        if operator is operators.not_ilike_op:\n"), "C03-R3")
 R.mutant("truncate-uses-hash", "sql/compiler.py", sub("util.md5_hex(name)[-4:]", "hex(hash(name))[-4:]"), "C03-R4")
 R.mutant("benign-contains-rename", "sql/compiler.py", sub("    def visit_contains_op_binary(self, binary, operator, **kw):\n        binary = binary._clone()\n        percent = self._like_percent_literal\n        binary.right = percent.concat(binary.right).concat(percent)\n        return self.visit_like_op_binary(binary, operator, **kw)",
                                                           "    def visit_contains_op_binary(self, binary, operator, **kw):\n        pct = self._like_percent_literal\n        binary = binary._clone()\n        binary.right = pct.concat(binary.right).concat(pct)\n        return self.visit_like_op_binary(binary, operator, **kw)"), None)
